@@ -146,3 +146,10 @@ package cache
 //@   ensures unlocked: held(s.rwLock, 0)
 //@   ensures gone: !hasN(s, key)
 //@   ensures others: forall j K :: j != key ==> hasN(s, j) == old(hasN(s, j)) && (hasN(s, j) ==> valN(s, j) == old(valN(s, j)))
+
+// Stats.Combined builds a new statistics value: the receiver's and the argument's live counters are only read.
+//@ func (s Stats) Combined(other Stats) Stats
+//@   requires s.hits != nil && s.misses != nil && s.size != nil && other.hits != nil && other.misses != nil && other.size != nil
+//@   nomod
+//@   ensures freshCounters: fresh(result.hits) && fresh(result.misses) && fresh(result.size)
+//@   ensures sums: result.hits.val == s.hits.val + other.hits.val && result.misses.val == s.misses.val + other.misses.val && result.size.val == s.size.val + other.size.val && result.Capacity == s.Capacity + other.Capacity
